@@ -48,7 +48,7 @@ pub fn c17(r: &Report) {
 
 pub fn c18(r: &Report) {
     let sub = "shared-types";
-    r.space(sub, true, "44 types of the data model shared by both codecs (integers, bool, char, floats, strings, unit, options, sequences, fixed arrays, tuples of every arity 1-12, ordered maps, tuples / arrays nested in sequences and maps, two levels of composition) x small-domain values x all re-framings with <= 2 wider heads, every combination of <= 3 indefinite containers / chunked strings, and everything indefinite", 1);
+    r.space(sub, true, "57 types of the data model shared by both codecs (integers, bool, char, floats, strings, unit, options, sequences, fixed arrays of sizes 0,1,2,3,4,16,24,32 (also nested), tuples of every arity 1-12, ordered maps, tuples / arrays nested in sequences and maps, two levels of composition) x small-domain values x all re-framings with <= 2 wider heads, every combination of <= 3 indefinite containers / chunked strings, and everything indefinite", 1);
     let mut a = Adapter { r, pairs: BTreeMap::new(), failing: BTreeMap::new() };
     mcx::slot::case("serde-shared", &[]);
     match mcx::par::guard(|| serde_family::run_c18(&mut a)) {
